@@ -437,6 +437,87 @@ def run_schedule_impl(ns, nswin, ov, kinds, events):
     return trace, per_view, problems
 
 
+# ---------------------------------------------------------------------------------------------
+# the data-carrying views: slice_array(sig, axis) on arrays of 1-3 dimensions, tscale(fs) at other rates
+# ---------------------------------------------------------------------------------------------
+DTYPES = ["int64", "int16", "uint8", "float32", "float64", "list"]
+FS_EXACT = [(1, 2), (1, 1), (2, 1), (4096, 1), (1, 1024), (32768, 1)]          # powers of two: the float result is exact
+FS_OTHER = [30000, 30000.0, 2500.0, 1e-3, "float32:30000", 44100, 3.0]
+
+
+def views_impl(ns, nswin, ov, axis, ncols, dtype, fsq, fso, seed):
+    """-> (mode-4 input, output), (mode-5 input, output), problems[(what, is_property_violation)]"""
+    import random
+    from fractions import Fraction
+    r = random.Random(seed)
+    problems = []
+    cap = win_cap(ns, nswin, ov)
+    fl = [ints(x, 2) for x in bounded(make_wg(ns, nswin, ov).firstlast, cap, "firstlast")]
+    rows_axis = axis in (0, -2)
+    shape = (ns, ncols) if rows_axis else (ncols, ns)
+    vals = [[r.randrange(0, 100) for _ in range(shape[1])] for _ in range(shape[0])]
+    sig = vals if dtype == "list" else np.array(vals, dtype=dtype)
+    ref = np.array(vals)
+    wg = make_wg(ns, nswin, ov)
+    out4 = [1, 0]
+    got = []
+    for a in bounded(wg.slice_array(sig, axis=axis), cap, "slice_array"):
+        if not isinstance(a, np.ndarray) or a.ndim != 2:
+            out4 += [-1, -1]
+            continue
+        if dtype != "list" and np.shares_memory(a, sig):
+            problems.append(("slice_array yields a view of its input (np.take copies)", False))
+        got.append(a)
+        out4 += [a.shape[0], a.shape[1]] + [int(x) for x in a.ravel()]
+        if dtype != "list" and a.dtype != sig.dtype:
+            problems.append(("slice_array changes the dtype of the data", False))
+    out4[1] = len(got)
+    if not np.array_equal(np.asarray(sig), ref):
+        problems.append(("slice_array modified the array it was given", False))
+    if wg.iw != len(fl) - 1:
+        problems.append(("wg.iw is not nwin-1 after a complete slice_array loop", False))
+    if ov == 0 and len(got) == len(fl) and got:       # zero overlap: the pieces put end to end are the signal
+        if not np.array_equal(np.concatenate(got, axis=0 if rows_axis else 1), ref):
+            problems.append(("zero overlap: the slice_array pieces concatenated along the axis are not the signal", True))
+    inp4 = [ns, nswin, ov, 4, axis, shape[0], shape[1]] + [x for row in vals for x in row]
+    # other ranks / every axis, against plain indexing (not through the model)
+    for nd in (1, 3):
+        shp = [2, 3, 2][:nd]
+        for ax in range(-nd, nd):
+            s2 = list(shp)
+            s2[ax] = ns
+            big = np.arange(int(np.prod(s2))).reshape(s2)
+            pieces = list(bounded(make_wg(ns, nswin, ov).slice_array(big, axis=ax), cap, "slice_array"))
+            exp = [np.moveaxis(np.moveaxis(big, ax, 0)[f:l], 0, ax) for f, l in fl]
+            if len(pieces) != len(exp) or not all(isinstance(p, np.ndarray) and np.array_equal(p, e) for p, e in zip(pieces, exp)):
+                problems.append(("slice_array(sig, axis=%d) on a %d-D array is not sig[first:last] along that axis" % (ax, nd), True))
+    sl = [s for s in bounded(make_wg(ns, nswin, ov).slice, cap, "slice")]
+    big = np.arange(ns)
+    if [tuple(int(x) for x in (big[s][0], big[s][-1] + 1)) if big[s].size else (-1, -1) for s in sl] != fl:
+        problems.append(("indexing with the slices of wg.slice does not give the windows of firstlast", True))
+    # tscale at a power-of-two rate: exact rational comparison inside the model
+    fn, fd = fsq
+    ts = make_wg(ns, nswin, ov).tscale(fn / fd)
+    pq = []
+    if isinstance(ts, np.ndarray) and ts.ndim == 1 and np.all(np.isfinite(ts)):
+        for x in ts:
+            fr = Fraction(float(x))
+            pq += [fr.numerator, fr.denominator]
+    inp5 = [ns, nswin, ov, 5, fn, fd] + pq
+    out5 = [len(fl), len(fl)] + [1] * len(fl)
+    # ... and at any other rate: centre / fs within two roundings
+    fs = np.float32(30000) if fso == "float32:30000" else fso
+    tsr = np.asarray(make_wg(ns, nswin, ov).tscale(fs), dtype=float)
+    centres = np.array([(f + l - 1) / 2 for f, l in fl])
+    # a float32 rate makes NumPy (NEP 50) compute the time in float32: 2^-24 per operation (noted, not a violation)
+    rtol = 3e-7 if isinstance(fs, np.float32) else 1e-14
+    if tsr.shape != centres.shape or not np.allclose(tsr * float(fs), centres, rtol=rtol, atol=0):
+        problems.append(("tscale(fs=%r) is not the window centres divided by fs (one per window)" % (fso,), True))
+    elif len(fl) > 1 and not np.all(np.diff(tsr) > 0):
+        problems.append(("tscale(fs=%r) is not strictly increasing" % (fso,), True))
+    return (inp4, out4), (inp5, out5), problems
+
+
 def gen_schedules(ctx, n):
     rng = ctx.rng
     out = []
@@ -655,6 +736,31 @@ def _work(job):
             res["nontrivial"] += len(used) >= 2 and max(len(v) for v in per_view) > 1
             if len(res["samples"]) < 1 and len(used) >= 2:
                 res["samples"].append(d)
+    elif kind == "views":
+        for (ns, w, o, axis, nc, dt, fsq, fso, seed) in items:
+            if ntimeouts[0] >= MAX_TIMEOUTS_PER_CHUNK:
+                break
+            d = dict(tri(ns, w, o), mode="views", axis=axis, ncols=nc, dtype=dt, fs_exact=list(fsq), fs_other=fso, seed=seed)
+            ok, r3 = guarded(views_impl, ns, w, o, axis, nc, dt, fsq, fso, seed)
+            if not ok:
+                res["fails"].append((why(r3) + " (slice_array / slice / tscale)", d, {"kind": "exception"}))
+                give_up(r3, d)
+                continue
+            (i4, o4), (i5, o5), problems = r3
+            for what, violated in dict.fromkeys(problems):
+                if violated:
+                    res["fails"].append((what, d, {"kind": "views"}))
+                else:
+                    res["disagrees"].append((what, d))
+            res["n"] += 1
+            inputs += [i4, i5]
+            outputs += [o4, o5]
+            descr += [d, d]
+            bump("cases")
+            bump("axis_%d" % axis)
+            bump("dtype_" + dt)
+            bump("zero_overlap", o == 0)
+            res["nontrivial"] += (max(0, -((-(ns - w)) // (w - o))) + 1) > 1
     else:   # representations of the constructor arguments
         for (ns, w, o) in items:
             if ntimeouts[0] >= MAX_TIMEOUTS_PER_CHUNK:
@@ -788,8 +894,16 @@ def run(ctx):
     rest = [t for t in triples if max(0, -((-(t[0] - t[1])) // (t[1] - t[2]))) + 1 <= 200]
     pool_t = list(dict.fromkeys(boundary + rng.sample(rest, min(len(rest), 6000 if ctx.thorough() else 500))))
 
+    small = [x for x in triples if x[0] <= 60 and x[1] <= 64]
+    views = []
+    nv = 12000 if ctx.thorough() else 1200
+    small0 = [x for x in small if x[2] == 0]
+    for (ns, w, o) in rng.sample(small, min(len(small), nv)) + rng.sample(small0, min(len(small0), nv // 4)):
+        views.append((ns, w, o, rng.choice([0, 1, -1, -2]), rng.choice([1, 2, 3]), rng.choice(DTYPES),
+                      rng.choice(FS_EXACT), rng.choice(FS_OTHER), rng.randrange(10 ** 6)))
     jobs = []
-    for kind, items, size in (("triple", triples, 1500), ("sched", scheds, 400), ("repr", pool_t, 60)):
+    for kind, items, size in (("triple", triples, 1500), ("sched", scheds, 400), ("repr", pool_t, 60),
+                              ("views", views, 150)):
         for c in range(0, len(items), size):
             jobs.append((kind, len(jobs), items[c:c + size]))
     try:
@@ -800,10 +914,10 @@ def run(ctx):
     nproc = max(2, min(common.NCPU - 2, 12, len(jobs)))
     results = run_jobs(ctx, jobs, nproc)
 
-    fam = {"triple": {}, "sched": {}, "repr": {}}
-    counts = {"triple": 0, "sched": 0, "repr": 0}
+    fam = {"triple": {}, "sched": {}, "repr": {}, "views": {}}
+    counts = {"triple": 0, "sched": 0, "repr": 0, "views": 0}
     nontrivial = nmodel = 0
-    keep, samples = [], {"triple": [], "sched": [], "repr": []}
+    keep, samples = [], {"triple": [], "sched": [], "repr": [], "views": []}
     for (kind, _, _), r in zip(jobs, results):
         if r is None:
             continue
@@ -841,13 +955,17 @@ def run(ctx):
              "1-6 views of one object (zip, random, sequential, nested, lone-tail patterns) compared event by "
              "event (output, wg.iw, number of distinct amplitude buffers) with the Coq state machine; "
              "(3) the triples' arguments given as 11 NumPy/float representations (all three / only ns), every "
-             "observation compared with the same Coq model as for Python ints; "
+             "observation compared with the same Coq model as for Python ints; (4) slice_array(sig, axis) on 2-D arrays "
+             "(axis 0/1/-1/-2, 1-3 columns, six dtypes incl. a plain list) against the model's take_axis, on 1-D and 3-D "
+             "arrays along every axis against plain indexing, wg.slice used for indexing, tscale(fs) at power-of-two rates "
+             "compared exactly (rational) with the model and at seven other rates within 1e-14; "
              "non-trivial = more than one window (triples) / two or more views advanced and more than one "
              "window yielded (schedules); distinct by triple / by (triple, views, schedule)",
         samples=smp, evaluations=sum(counts.values()), distinct_nontrivial=nontrivial,
         extra={"input_distribution": fam["triple"], "schedule_distribution": sd, "representation_runs": fam["repr"],
+               "views_distribution": fam["views"],
                "evaluations_by_family": {"triples": counts["triple"], "schedules": counts["sched"],
-                                         "representations": counts["repr"]},
+                                         "representations": counts["repr"], "views": counts["views"]},
                "worker_processes": nproc, "exhaustive": False, "box_exhaustive": bool(ctx.thorough())},
         assumptions=["Python float arithmetic is IEEE-754 binary64 as formalised by Flocq (operands below 2^53)",
                      ])
@@ -871,6 +989,15 @@ def _replay(ctx, data):
             ids = common.coq_mismatches(PROP, HEADER, [common.flat_cases_term(
                 0, [ns, w, o, 2, len(inp["kinds"])] + inp["kinds"] + inp["events"], trace)])
             print("kernel-evaluated state machine agrees with implementation:", not ids)
+            return 1 if (ids or problems) else 0
+        if mode == "views":
+            (i4, o4), (i5, o5), problems = views_impl(ns, w, o, inp["axis"], inp["ncols"], inp["dtype"],
+                                                      tuple(inp["fs_exact"]), inp["fs_other"], inp["seed"])
+            print("slice_array trace (windows, then rows, cols, data per window):", o4[:80])
+            print("problems seen on the implementation:", problems)
+            ids = common.coq_mismatches(PROP, HEADER, [common.flat_cases_term(0, i4, o4), common.flat_cases_term(1, i5, o5)])
+            print("kernel-evaluated model agrees (0 = slice_array, 1 = tscale at fs=%s/%s): disagreeing ids %s" % (
+                inp["fs_exact"][0], inp["fs_exact"][1], ids))
             return 1 if (ids or problems) else 0
         if mode == "repr":
             obs = impl_observe(ns, w, o, False, inp["repr"], inp["which"], interleave=False)
